@@ -224,7 +224,9 @@ Proof.
   - ring.
   - rewrite IH. ring.
 Qed.
+Definition rep_obs2 : cobs :=
+  [(1%Q, [(0%N, PZ)]); ((1 # 2)%Q, [(0%N, PZ)]); (2%Q, []); (1%Q, []); ((3 # 2)%Q, [(1%N, PZ)]); ((-3 # 2)%Q, [(1%N, PZ)])].
+Definition rep_obs1 : cobs := [(1%Q, [(0%N, PZ)]); ((1 # 2)%Q, [(0%N, PZ)]); (2%Q, []); (1%Q, [])].
 Lemma repeated_terms_example :
-  (diag_value [(1, [(0, PZ)]); (1 # 2, [(0, PZ)]); (2, []); (1, []); (3 # 2, [(1, PZ)]); (-3 # 2, [(1, PZ)])] [true; true] == 3 # 2)%Q
-  /\ (cexpect [(1, [(0, PZ)]); (1 # 2, [(0, PZ)]); (2, []); (1, [])] [1%N] == 3 # 2)%Q.
+  (diag_value rep_obs2 [true; true] == 3 # 2)%Q /\ (cexpect rep_obs1 [1%N] == 3 # 2)%Q.
 Proof. split; vm_compute; reflexivity. Qed.
